@@ -912,6 +912,97 @@ func C17(c *core.Ctx) {
 		}
 	}
 
+	// ---- R17.21 a face that faces/create reports with 200 can be sent on at once: the TCP
+	// transport connects later, in its receive loop, so until then its connection is nil.
+	// In a transport whose constructor does not set its connection, every use of the
+	// connection in the methods the send path calls (sendFrame, GetSendQueueSize) is behind
+	// "running" or "conn != nil" — otherwise the first congestion check on a face whose peer
+	// is down dereferences nil in the send goroutine and the daemon dies.
+	if ti := p.Named("fw/face", "transport"); ti != nil {
+		nLate := 0
+		for _, t := range p.Implementations(ti) {
+			st, ok := t.Underlying().(*types.Struct)
+			if !ok {
+				continue
+			}
+			connIdx := -1
+			for i := 0; i < st.NumFields(); i++ {
+				if st.Field(i).Name() == "conn" {
+					if _, isPtr := st.Field(i).Type().Underlying().(*types.Pointer); isPtr {
+						connIdx = i
+					}
+				}
+			}
+			if connIdx < 0 {
+				continue
+			}
+			// does some constructor leave conn unset?
+			late := false
+			for _, fn := range p.FuncsIn(core.ModPath + "/fw/face") {
+				if fn.Signature.Recv() != nil || fn.Signature.Results().Len() == 0 || fn.Parent() != nil {
+					continue
+				}
+				if core.Deref(fn.Signature.Results().At(0).Type()) != types.Type(t) {
+					continue
+				}
+				sets := false
+				core.Instrs(fn, func(in ssa.Instruction) {
+					if _, _, ok := storeToField(in, t.Obj().Name(), "conn"); ok {
+						sets = true
+					}
+				})
+				if !sets {
+					late = true
+				}
+			}
+			if !late {
+				continue
+			}
+			nLate++
+			for _, mn := range []string{"sendFrame", "GetSendQueueSize"} {
+				fn := p.MethodOf(t, mn)
+				if fn == nil || fn.Blocks == nil {
+					continue
+				}
+				var uses []ssa.Instruction
+				core.Instrs(fn, func(in ssa.Instruction) {
+					ci, ok := in.(ssa.CallInstruction)
+					if !ok || len(ci.Common().Args) == 0 {
+						return
+					}
+					if _, isF := core.FieldOf(ci.Common().Args[0], "conn"); isF && ci.Common().StaticCallee() != nil && ci.Common().StaticCallee().Signature.Recv() != nil {
+						uses = append(uses, in)
+					}
+				})
+				if len(uses) == 0 {
+					continue
+				}
+				c.Funcs[core.FuncName(fn)] = true
+				ready := &core.Atom{Name: "connected", Match: func(cond ssa.Value) (int, int) {
+					if cl, ok := core.Strip(cond).(*ssa.Call); ok {
+						if id, okID := core.Callee(&cl.Call); okID && id.Name == "Load" && len(cl.Call.Args) == 1 {
+							if fa, isFA := cl.Call.Args[0].(*ssa.FieldAddr); isFA {
+								if _, fld := core.FieldAddrName(fa); fld == "running" {
+									return 1, -1
+								}
+							}
+						}
+					}
+					op, x, y, okC := core.Cmp(cond)
+					if okC && (op == token.EQL || op == token.NEQ) && core.IsNilConst(y) {
+						if _, isF := core.FieldOf(x, "conn"); isF {
+							return core.Iff(op == token.NEQ)
+						}
+					}
+					return 0, 0
+				}}
+				g := core.Gate(fn, uses, pos(ready))
+				c.Decide(g.OK && g.PassEdges > 0, "R17.21", "late-connection-guarded:"+t.Obj().Name()+"."+mn, c.Pos(uses[0]), "the connection is used only behind running / conn != nil", t.Obj().Name()+"."+mn+" uses the transport's connection without checking that there is one: the constructor leaves it nil (the transport connects in its receive loop), faces/create answers 200 before that, and the first packet that reaches this call on a face whose peer is down panics in the face's send goroutine — the daemon dies")
+			}
+		}
+		c.Floor("R17.21", "transports that connect after construction", nLate, 1)
+	}
+
 	// ---- R17.18 (shared with C10 R10.17) "never crashes": an MTU that management accepts never
 	// leads to a division by zero in the send path
 	c.Import(C10, "R17.18", "the send path divides by the payload room without having established that it is positive: an MTU that faces/create or faces/update accepts, with a PIT token that uses up the room, crashes the forwarder", 1, func(k string) bool {
